@@ -18,6 +18,7 @@ pub mod c17;
 pub mod c18;
 pub mod c19;
 pub mod common;
+pub mod engine_s;
 pub mod replay;
 
 pub fn run(p: &str, thorough: bool, rest: &[String]) {
